@@ -353,7 +353,9 @@ func genFault(r *Rng, maxK int) *FaultPlan {
 }
 
 func genFault0(r *Rng, maxK int) *FaultPlan {
-	switch r.Intn(10) {
+	switch r.Intn(11) {
+	case 10:
+		return &FaultPlan{Kind: "flaky", J: r.Intn(1 << 20), K: pick(r, []int{3, 10, 30, 60})}
 	case 0, 1, 2, 3:
 		return &FaultPlan{Kind: "short+err", K: r.Intn(maxK)}
 	case 4:
